@@ -1,6 +1,17 @@
 /-
 Driver for the `mh` correspondence stream (C01, C03, C04, C11): a table of
 sketch handles, one Python-API-level operation per line.
+
+The driver is a composition of three total functions
+
+    parseD : String → Op                 -- the text of a line, as a typed operation (`unparsed` if it is none)
+    exec   : St → Op → St × Ans          -- the operation on the handle table, with a typed answer
+    render : Ans → String                -- the canonical observation line
+
+and `step st line` IS `render (exec st (parseD line))` (by definition), so that theorems about every
+history of typed operations (`Props/C01.lean`: the representation invariant in every cell of the table after
+every history; `Props/C11.lean`: every md5 answer is the digest of the current content) are theorems about
+what this driver prints in the correspondence run.
 -/
 import SmVerif.Model.MinHash
 import SmVerif.Model.Proto
@@ -33,10 +44,83 @@ def get (st : St) (i : Nat) : Option MH := (st[i]?).join
 
 def put (st : St) (i : Nat) (s : MH) : St := st.setIfInBounds i (some s)
 
+/-- string-level `fin` (used by `DriverCmp`) -/
 def fin (st : St) (r : Nat) (x : Except MH.Err MH) : St × String :=
   match x with
   | .ok s => (put st r s, showMH s)
   | .error e => (st, "err " ++ errName e)
+
+/-! ### typed operations and answers -/
+
+/-- one line of the `mh` stream.  Handles are indices into the table; signature objects live in the upper half
+(slot `32 + S`). -/
+inductive Op where
+  | unparsed                                                -- a line that is not an operation of the stream (`bad-op`)
+  | reset                                                   -- `# case`
+  | skip                                                    -- `@…`: implementation-only observation (oracle decides)
+  | new (r num scaled : Nat) (track : Bool) (ksize seed : Nat)
+  | newmh (r num maxHash : Nat) (track : Bool) (ksize seed : Nat)
+  | add (h v : Nat)
+  | addab (h v a : Nat)
+  | addmany (h : Nat) (vs : List Nat)
+  | addfrom (h g : Nat)
+  | rm (h : Nat) (vs : List Nat)
+  | rmfrom (h g : Nat)
+  | setab (h : Nat) (clear : Bool) (ps : List (Nat × Nat))
+  | clear (h : Nat)
+  | merge (h g : Nat)
+  | plus (r h g : Nat)
+  | copy (r h : Nat)
+  | pickle (r h : Nat)
+  | down (r h sc : Nat)
+  | downnum (r h n : Nat)
+  | flat (r h : Nat)
+  | inter (r h g : Nat)
+  | inflate (r h g : Nat)
+  | md5raw (h : Nat)
+  | md5 (h : Nat)
+  | cc (h g : Nat) (ds : Bool)
+  | iu (h g : Nat)
+  | «show» (h : Nat)
+  | sig (s h : Nat)
+  | sigsetmh (s h : Nat)
+  | sigmd5 (s : Nat)
+  | sigadd (s : Nat) (bytes : List Nat) (force : Bool)
+  | sigcopy (r s : Nat)
+deriving Repr, DecidableEq
+
+/-- a typed observation -/
+inductive Ans where
+  | reset
+  | skip
+  | bad
+  | err (e : MH.Err)
+  | errType                         -- `err TypeError` of `intersection_and_union_size`
+  | errValue                        -- `err ValueError` of `add_sequence`
+  | mh (s : MH)
+  | digest (d : Digest)             -- an md5 answer (pre-image; the harness applies md5)
+  | sig (k : Nat) (mins : List Nat) (d1 d2 : Digest)   -- a signature: k, hashes, `sig.md5sum()`, md5 of `sig.minhash`
+  | nat (n : Nat)
+  | nat2 (c u : Nat)
+deriving Repr, DecidableEq
+
+def render : Ans → String
+  | .reset => "#"
+  | .skip => "skip"
+  | .bad => "bad-op"
+  | .err e => "err " ++ errName e
+  | .errType => "err TypeError"
+  | .errValue => "err ValueError"
+  | .mh s => showMH s
+  | .digest d => showDigest d
+  | .sig k mins d1 d2 => s!"sig k={k} mins={joinNats mins} {showDigest d1} | {showDigest d2}"
+  | .nat n => s!"ok {n}"
+  | .nat2 c u => s!"ok {c} {u}"
+
+def finA (st : St) (r : Nat) (x : Except MH.Err MH) : St × Ans :=
+  match x with
+  | .ok s => (put st r s, .mh s)
+  | .error e => (st, .err e)
 
 /-! Signature objects (`SourmashSignature`): a signature CONTAINS a sketch (it is cloned in by the
 constructor / the `.minhash` setter and cloned out by the `.minhash` getter), so a signature cell is an `MH`
@@ -47,222 +131,214 @@ inner sketch through `KmerMinHash::add_sequence` (k-mer hashing: `Model/SeqToHas
 def sigSlot (s : Nat) : Nat := 32 + s
 
 /-- what the adapter prints for a signature: k, current hashes, `sig.md5sum()`, md5 of `sig.minhash` -/
-def showSig (st : St) (s : Nat) : St × String :=
+def showSig (st : St) (s : Nat) : St × Ans :=
   match get st (sigSlot s) with
-  | none => (st, "bad-op")
+  | none => (st, .bad)
   | some cell =>
     let (cell1, out1) := cell.clone          -- sig.md5sum(): self.minhash (clone out) ...
     let d1 := out1.md5sum.2                   -- ... kmerminhash_md5sum on the clone
     let (cell2, out2) := cell1.clone          -- sig.minhash again, for the second answer
     let d2 := out2.md5sum.2
-    (put st (sigSlot s) cell2,
-     s!"sig k={cell.ksize} mins={joinNats cell.mins} {showDigest d1} | {showDigest d2}")
+    (put st (sigSlot s) cell2, .sig cell.ksize cell.mins d1 d2)
 
-def sigStep (st : St) (ws : List String) : Option (St × String) :=
-  match ws with
-  | ["sig", s, h] => do
-    let s ← nat? s
-    let h ← nat? h
-    let src ← get st h
-    let (src', c) := src.clone               -- signature_set_mh clones the sketch in
-    pure (showSig (put (put st h src') (sigSlot s) c) s)
-  | ["sigsetmh", s, h] => do
-    let s ← nat? s
-    let h ← nat? h
-    let _ ← get st (sigSlot s)
-    let src ← get st h
-    let (src', c) := src.clone
-    pure (showSig (put (put st h src') (sigSlot s) c) s)
-  | ["sigmd5", s] => do
-    let s ← nat? s
-    let _ ← get st (sigSlot s)
-    pure (showSig st s)
+/-- the k-mer hashes `sig.add_sequence(seq, force)` offers to the inner sketch, and whether it raised -/
+def sigHashes (cell : MH) (bytes : List Nat) (force : Bool) : List Nat × Bool :=
+  let (hs, err) := Seq.Py.addSequence (Murmur3.hashNat cell.seed) .dna cell.ksize bytes force
+  (hs, err.isSome)
+
+def exec (st : St) : Op → St × Ans
+  | .unparsed => (st, .bad)
+  | .reset => (init, .reset)
+  | .skip => (st, .skip)
+  | .new r num scaled tr ksize seed => finA st r (Py.mkMinHash num ksize 1 seed tr 0 scaled)
+  | .newmh r num mx tr ksize seed => finA st r (Py.mkMinHash num ksize 1 seed tr mx 0)
+  | .add h v =>
+    match get st h with
+    | some s => finA st h (.ok (s.addHash v))
+    | none => (st, .bad)
+  | .addab h v a =>
+    match get st h with
+    | some s => finA st h (Py.addHashWithAbundance s v a)
+    | none => (st, .bad)
+  | .addmany h vs =>
+    match get st h with
+    | some s => finA st h (.ok (s.addMany vs))
+    | none => (st, .bad)
+  | .addfrom h g =>
+    match get st h, get st g with
+    | some s, some o => finA st h (.ok (s.addFrom o))
+    | _, _ => (st, .bad)
+  | .rm h vs =>
+    match get st h with
+    | some s => finA st h (.ok (s.removeMany vs))
+    | none => (st, .bad)
+  | .rmfrom h g =>
+    match get st h, get st g with
+    | some s, some o => finA st h (.ok (s.removeFrom o))
+    | _, _ => (st, .bad)
+  | .setab h c ps =>
+    match get st h with
+    | some s => finA st h (Py.setAbundances s ps c)
+    | none => (st, .bad)
+  | .clear h =>
+    match get st h with
+    | some s => finA st h (.ok s.clear)
+    | none => (st, .bad)
+  | .merge h g =>
+    match get st h, get st g with
+    | some s, some o => finA st h (s.merge o)
+    | _, _ => (st, .bad)
+  | .plus r h g =>
+    match get st h, get st g with
+    | some s, some o => finA st r (Py.add s o)
+    | _, _ => (st, .bad)
+  | .copy r h =>
+    match get st h with
+    | some s => finA st r (Py.copy s)
+    | none => (st, .bad)
+  | .pickle r h =>
+    match get st h with
+    | some s => finA st r (.ok (Py.pickleRoundTrip s))
+    | none => (st, .bad)
+  | .down r h sc =>
+    match get st h with
+    | some s => finA st r (Py.downsample s none (some sc))
+    | none => (st, .bad)
+  | .downnum r h n =>
+    match get st h with
+    | some s => finA st r (Py.downsample s (some n) none)
+    | none => (st, .bad)
+  | .flat r h =>
+    match get st h with
+    | some s =>
+      match Py.flatten s with
+      | .ok (some f) => finA st r (.ok f)
+      | .ok none => finA st r (.ok s)
+      | .error e => finA st r (.error e)
+    | none => (st, .bad)
+  | .inter r h g =>
+    match get st h, get st g with
+    | some s, some o =>
+      match Py.intersection s o with
+      | .ok (s', n) => finA (put st h s') r (.ok n)
+      | .error e => finA st r (.error e)
+    | _, _ => (st, .bad)
+  | .inflate r h g =>
+    match get st h, get st g with
+    | some s, some o => finA st r (Py.inflate s o)
+    | _, _ => (st, .bad)
+  | .md5raw h =>
+    match get st h with
+    | some s => (put st h s.md5sum.1, .digest s.md5sum.2)
+    | none => (st, .bad)
+  | .md5 h =>
+    -- SourmashSignature(mh).md5sum(): clone in (fills mh's cache), clone out, md5 of the clone
+    match get st h with
+    | some s => (put st h s.clone.1, .digest s.clone.2.clone.2.md5sum.2)
+    | none => (st, .bad)
+  | .cc h g ds =>
+    match get st h, get st g with
+    | some s, some o =>
+      match s.countCommon o ds with
+      | .ok n => (st, .nat n)
+      | .error e => (st, .err e)
+    | _, _ => (st, .bad)
+  | .iu h g =>
+    -- intersection_and_union_size: refuses incompatible sketches with TypeError
+    match get st h, get st g with
+    | some s, some o =>
+      match s.checkCompatible o with
+      | .error _ => (st, .errType)
+      | .ok _ =>
+        match s.intersectionSize o with
+        | .ok (c, u) => (st, .nat2 c u)
+        | .error _ => (st, .nat2 0 0)
+    | _, _ => (st, .bad)
+  | .show h =>
+    match get st h with
+    | some s => (st, .mh s)
+    | none => (st, .bad)
+  | .sig s h =>
+    match get st h with
+    | some src => showSig (put (put st h src.clone.1) (sigSlot s) src.clone.2) s   -- signature_set_mh clones the sketch in
+    | none => (st, .bad)
+  | .sigsetmh s h =>
+    match get st (sigSlot s), get st h with
+    | some _, some src => showSig (put (put st h src.clone.1) (sigSlot s) src.clone.2) s
+    | _, _ => (st, .bad)
+  | .sigmd5 s =>
+    match get st (sigSlot s) with
+    | some _ => showSig st s
+    | none => (st, .bad)
+  | .sigadd s bytes force =>
+    match get st (sigSlot s) with
+    | some cell =>
+      let (hs, raised) := sigHashes cell bytes force
+      let st' := put st (sigSlot s) (cell.addMany hs)      -- hashes offered before an error stay in the sketch
+      if raised then (st', .errValue) else showSig st' s
+    | none => (st, .bad)
+  | .sigcopy r s =>
+    -- pickle round trip of the signature: a value copy (JSON inside)
+    match get st (sigSlot s) with
+    | some cell => showSig (put (put st (sigSlot s) cell.clone.1) (sigSlot r) cell.clone.2) r
+    | none => (st, .bad)
+
+/-! ### the text of a line -/
+
+def parse (line : String) : Option Op :=
+  if line.startsWith "@" then some .skip else
+  match words line with
+  | "#" :: _ => some .reset
+  | ["sig", s, h] => do pure (.sig (← nat? s) (← nat? h))
+  | ["sigsetmh", s, h] => do pure (.sigsetmh (← nat? s) (← nat? h))
+  | ["sigmd5", s] => do pure (.sigmd5 (← nat? s))
   | ["sigadd", s, seq, force] => do
     let s ← nat? s
     let f ← bool? force
-    let cell ← get st (sigSlot s)
-    let bytes := seq.toList.map Char.toNat
-    let (hs, err) := Seq.Py.addSequence (Murmur3.hashNat cell.seed) .dna cell.ksize bytes f
-    let cell' := cell.addMany hs              -- hashes offered before an error stay in the sketch
-    let st' := put st (sigSlot s) cell'
-    match err with
-    | none => pure (showSig st' s)
-    | some _ => pure (st', "err ValueError")
-  | ["sigcopy", r, s] => do                   -- pickle round trip of the signature: a value copy (JSON inside)
-    let r ← nat? r
-    let s ← nat? s
-    let cell ← get st (sigSlot s)
-    let (cell', c) := cell.clone
-    pure (showSig (put (put st (sigSlot s) cell') (sigSlot r) c) r)
+    pure (.sigadd s (seq.toList.map Char.toNat) f)
+  | ["sigcopy", r, s] => do pure (.sigcopy (← nat? r) (← nat? s))
+  | ["new", r, num, scaled, track, ksize, seed] => do
+    pure (.new (← nat? r) (← nat? num) (← nat? scaled) (← bool? track) (← nat? ksize) (← nat? seed))
+  | ["newmh", r, num, maxhash, track, ksize, seed] => do
+    pure (.newmh (← nat? r) (← nat? num) (← nat? maxhash) (← bool? track) (← nat? ksize) (← nat? seed))
+  | ["add", h, v] => do pure (.add (← nat? h) (← nat? v))
+  | ["addab", h, v, a] => do pure (.addab (← nat? h) (← nat? v) (← nat? a))
+  | "addmany" :: h :: vs => do pure (.addmany (← nat? h) (← nats? vs))
+  | ["addfrom", h, g] => do pure (.addfrom (← nat? h) (← nat? g))
+  | "rm" :: h :: vs => do pure (.rm (← nat? h) (← nats? vs))
+  | ["rmfrom", h, g] => do pure (.rmfrom (← nat? h) (← nat? g))
+  | "setab" :: h :: clear :: ps => do pure (.setab (← nat? h) (← bool? clear) (← pairs? ps))
+  | ["clear", h] => do pure (.clear (← nat? h))
+  | ["merge", h, g] => do pure (.merge (← nat? h) (← nat? g))
+  | ["plus", r, h, g] => do pure (.plus (← nat? r) (← nat? h) (← nat? g))
+  | ["copy", r, h] => do pure (.copy (← nat? r) (← nat? h))
+  | ["pickle", r, h] => do pure (.pickle (← nat? r) (← nat? h))
+  | ["down", r, h, sc] => do pure (.down (← nat? r) (← nat? h) (← nat? sc))
+  | ["downnum", r, h, n] => do pure (.downnum (← nat? r) (← nat? h) (← nat? n))
+  | ["flat", r, h] => do pure (.flat (← nat? r) (← nat? h))
+  | ["inter", r, h, g] => do pure (.inter (← nat? r) (← nat? h) (← nat? g))
+  | ["inflate", r, h, g] => do pure (.inflate (← nat? r) (← nat? h) (← nat? g))
+  | ["md5raw", h] => do pure (.md5raw (← nat? h))
+  | ["md5", h] => do pure (.md5 (← nat? h))
+  | ["cc", h, g, ds] => do pure (.cc (← nat? h) (← nat? g) (← bool? ds))
+  | ["iu", h, g] => do pure (.iu (← nat? h) (← nat? g))
+  | ["show", h] => do pure (.show (← nat? h))
   | _ => none
 
+/-- total version: a line that does not parse is the operation `unparsed` -/
+def parseD (line : String) : Op := (parse line).getD .unparsed
+
+/-- one line of the stream: parse, execute, render -/
 def step (st : St) (line : String) : St × String :=
-  let bad := (st, "bad-op")
-  if line.startsWith "@" then (st, "skip") else   -- implementation-only observation (oracle decides)
-  match sigStep st (words line) with
-  | some r => r
-  | none =>
-  match words line with
-  | "#" :: _ => (init, "#")
-  | ["new", r, num, scaled, track, ksize, seed] =>
-    match nats? [r, num, scaled, ksize, seed], bool? track with
-    | some [r, num, scaled, ksize, seed], some tr =>
-      fin st r (Py.mkMinHash num ksize 1 seed tr 0 scaled)
-    | _, _ => bad
-  | ["newmh", r, num, maxhash, track, ksize, seed] =>
-    match nats? [r, num, maxhash, ksize, seed], bool? track with
-    | some [r, num, mx, ksize, seed], some tr =>
-      fin st r (Py.mkMinHash num ksize 1 seed tr mx 0)
-    | _, _ => bad
-  | ["add", h, v] =>
-    match nats? [h, v] with
-    | some [h, v] => match get st h with
-      | some s => fin st h (.ok (s.addHash v))
-      | none => bad
-    | _ => bad
-  | ["addab", h, v, a] =>
-    match nats? [h, v, a] with
-    | some [h, v, a] => match get st h with
-      | some s => fin st h (Py.addHashWithAbundance s v a)
-      | none => bad
-    | _ => bad
-  | "addmany" :: h :: vs =>
-    match nat? h, nats? vs with
-    | some h, some vs => match get st h with
-      | some s => fin st h (.ok (s.addMany vs))
-      | none => bad
-    | _, _ => bad
-  | ["addfrom", h, g] =>
-    match nats? [h, g] with
-    | some [h, g] => match get st h, get st g with
-      | some s, some o => fin st h (.ok (s.addFrom o))
-      | _, _ => bad
-    | _ => bad
-  | "rm" :: h :: vs =>
-    match nat? h, nats? vs with
-    | some h, some vs => match get st h with
-      | some s => fin st h (.ok (s.removeMany vs))
-      | none => bad
-    | _, _ => bad
-  | ["rmfrom", h, g] =>
-    match nats? [h, g] with
-    | some [h, g] => match get st h, get st g with
-      | some s, some o => fin st h (.ok (s.removeFrom o))
-      | _, _ => bad
-    | _ => bad
-  | "setab" :: h :: clear :: ps =>
-    match nat? h, bool? clear, pairs? ps with
-    | some h, some c, some ps => match get st h with
-      | some s => fin st h (Py.setAbundances s ps c)
-      | none => bad
-    | _, _, _ => bad
-  | ["clear", h] =>
-    match nat? h with
-    | some h => match get st h with
-      | some s => fin st h (.ok s.clear)
-      | none => bad
-    | _ => bad
-  | ["merge", h, g] =>
-    match nats? [h, g] with
-    | some [h, g] => match get st h, get st g with
-      | some s, some o => fin st h (s.merge o)
-      | _, _ => bad
-    | _ => bad
-  | ["plus", r, h, g] =>
-    match nats? [r, h, g] with
-    | some [r, h, g] => match get st h, get st g with
-      | some s, some o => fin st r (Py.add s o)
-      | _, _ => bad
-    | _ => bad
-  | ["copy", r, h] =>
-    match nats? [r, h] with
-    | some [r, h] => match get st h with
-      | some s => fin st r (Py.copy s)
-      | none => bad
-    | _ => bad
-  | ["pickle", r, h] =>
-    match nats? [r, h] with
-    | some [r, h] => match get st h with
-      | some s => fin st r (.ok (Py.pickleRoundTrip s))
-      | none => bad
-    | _ => bad
-  | ["down", r, h, sc] =>
-    match nats? [r, h, sc] with
-    | some [r, h, sc] => match get st h with
-      | some s => fin st r (Py.downsample s none (some sc))
-      | none => bad
-    | _ => bad
-  | ["downnum", r, h, n] =>
-    match nats? [r, h, n] with
-    | some [r, h, n] => match get st h with
-      | some s => fin st r (Py.downsample s (some n) none)
-      | none => bad
-    | _ => bad
-  | ["flat", r, h] =>
-    match nats? [r, h] with
-    | some [r, h] => match get st h with
-      | some s => match Py.flatten s with
-        | .ok (some f) => fin st r (.ok f)
-        | .ok none => fin st r (.ok s)
-        | .error e => fin st r (.error e)
-      | none => bad
-    | _ => bad
-  | ["inter", r, h, g] =>
-    match nats? [r, h, g] with
-    | some [r, h, g] => match get st h, get st g with
-      | some s, some o => match Py.intersection s o with
-        | .ok (s', n) => fin (put st h s') r (.ok n)
-        | .error e => fin st r (.error e)
-      | _, _ => bad
-    | _ => bad
-  | ["inflate", r, h, g] =>
-    match nats? [r, h, g] with
-    | some [r, h, g] => match get st h, get st g with
-      | some s, some o => fin st r (Py.inflate s o)
-      | _, _ => bad
-    | _ => bad
-  | ["md5raw", h] =>
-    match nat? h with
-    | some h => match get st h with
-      | some s => let (s', d) := s.md5sum; (put st h s', showDigest d)
-      | none => bad
-    | _ => bad
-  | ["md5", h] =>
-    -- SourmashSignature(mh).md5sum(): clone in (fills mh's cache), clone out, md5 of the clone
-    match nat? h with
-    | some h => match get st h with
-      | some s =>
-        let (s', c) := s.clone
-        let (_, c2) := c.clone
-        (put st h s', showDigest c2.md5sum.2)
-      | none => bad
-    | _ => bad
-  | ["cc", h, g, ds] =>
-    match nats? [h, g], bool? ds with
-    | some [h, g], some ds => match get st h, get st g with
-      | some s, some o => match s.countCommon o ds with
-        | .ok n => (st, s!"ok {n}")
-        | .error e => (st, "err " ++ errName e)
-      | _, _ => bad
-    | _, _ => bad
-  | ["iu", h, g] =>
-    -- intersection_and_union_size: refuses incompatible sketches with TypeError
-    match nats? [h, g] with
-    | some [h, g] => match get st h, get st g with
-      | some s, some o =>
-        match s.checkCompatible o with
-        | .error _ => (st, "err TypeError")
-        | .ok _ => match s.intersectionSize o with
-          | .ok (c, u) => (st, s!"ok {c} {u}")
-          | .error _ => (st, "ok 0 0")
-      | _, _ => bad
-    | _ => bad
-  | ["show", h] =>
-    match nat? h with
-    | some h => match get st h with
-      | some s => (st, showMH s)
-      | none => bad
-    | _ => bad
-  | _ => bad
+  let r := exec st (parseD line)
+  (r.1, render r.2)
+
+/-- every history of typed operations: final table and the answers, in order -/
+def run (st : St) : List Op → St × List Ans
+  | [] => (st, [])
+  | op :: ops =>
+    let r := exec st op
+    let rest := run r.1 ops
+    (rest.1, r.2 :: rest.2)
 
 end Sm.DriverMh
